@@ -339,11 +339,27 @@ pub fn c10(ctx: &Ctx, rep: &mut Report) {
                 3 => width * rng.range(1, 3) + rng.range(0, 2),
                 _ => rng.range(2, 9) * 8192,
             };
-            let n = match rng.below(3) {
+            let mut n = match rng.below(3) {
                 0 => (base / width).max(1) * width, // exact multiple of the width
                 1 => (base / width).max(1) * width + rng.range(0, 2) - 1,
                 _ => base,
             };
+            if rng.chance(1, 3) {
+                // the wrapped OUTPUT (sequence bytes plus one newline per full line) is 2^k or 2^k +- 1 bytes
+                // long, k = 10..21: the last line ends exactly at the end of a block of an internal buffer
+                let k = if rng.chance(1, 6) { rng.range(19, 21) } else { rng.range(10, 18) };
+                let target = (1usize << k) + rng.range(0, 2) - 1;
+                let guess = target / (width + 1) * width + target % (width + 1);
+                let mut best = guess.max(1);
+                for cand in guess.saturating_sub(3)..guess + 4 {
+                    if cand > 0 && cand + cand / width == target {
+                        best = cand;
+                        break;
+                    }
+                }
+                n = best;
+                rep.count("wrapped_output_sizes_at_powers_of_two");
+            }
             rep.count("large_sequences");
             (n, width)
         } else if rng.chance(1, 40) {
